@@ -215,6 +215,22 @@ CHECKS = {
         "providers' localize bodies by exact statement shape; the tz database installed here. 'other': the offset clause is the provider's "
         "behaviour and is explored, not proved.",
    technique="contract-based deductive verification: pyvc/chars VCs on the real tzid / vDatetime / from_ical / parse-loop / TZP / descriptor bodies (z3) + finite lookup lemma over all zone keys; bounded zone-transition stand-in"),
+ "C12": dict(
+   category="other", design_ref="DESIGN.md section 8 C12",
+   text="pyvc + seqs on the real tail of Timezone.get_transitions (sort statement with its real key lambda, onset comprehension), for any "
+        "number of transitions: transition_times[k] = local[k] - TZOFFSETFROM[k] and the times are ascending (required by pytz's bisect; "
+        "this obligation found the local-time sort, repaired by a fix commit). fin: the offset rounding of _extract_offsets is the identity "
+        "on whole minutes (all 86400 values). Statement shapes: observance kind / offsets carried by every transition, RRULE expanded in "
+        "the zone of TZOFFSETFROM, PYTZ.create_timezone hands the transitions over unchanged, ZONEINFO hands the component text to tzical, "
+        "to_tz(lookup_tzid=False) builds from this component. Cache (pyvc on TZP.cache_timezone_component ; TZP.timezone): a new custom "
+        "TZID resolves to the zone built from its own definition; caching changes the zone of no other TZID; 'whatever was parsed before' is "
+        "refuted (first definition wins: known finding C12-F3). Each provider against an RFC 5545 oracle with its own recurrence "
+        "expansion at every onset -1 s / 0 / +1 s and midpoints, and calendar histories, are a labelled bounded stand-in "
+        "(dateutil's tzical deviations: C12-F1/F2; definition after use: C12-F4).",
+   note="Trusted: pyvc + seqs + z3; list.sort orders by the key; datetime arithmetic (contracts/dt.py); pytz DstTzInfo's bisect contract "
+        "(stated, with G.* it gives the RFC rule for the pytz provider); dateutil rrulestr / tzical external. 'other': the zoneinfo path is "
+        "interpreted by dateutil and only explored.",
+   technique="contract-based deductive verification: pyvc/seqs VCs on the real get_transitions tail and cache functions (z3), finite rounding lemma, statement-shape contracts; bounded RFC-oracle stand-in"),
 }
 NA_REASON = "check not built yet (build round in progress; DESIGN.md section 8 describes the planned contracts)"
 
